@@ -230,10 +230,37 @@ class Program:
             self.modules[rel] = tree
             self.files[rel] = rel
             self.sources[rel] = src
+        self.inline_log = self._inline_unreviewed_helpers()
+        for rel, tree in self.modules.items():
             self._index_module(rel, tree)
         self.digest = h.hexdigest()
         if len(self.modules) < 40:
             raise AnalysisError(f"only {len(self.modules)} modules parsed (floor 40)")
+
+    def _inline_unreviewed_helpers(self) -> list[str]:
+        """functions that are not in the reviewed table are analysed in the context of their callers (sa/inline.py)"""
+        from sa.inline import function_keys, inline_unknown_helpers
+        from sa.tables.known_functions import KNOWN_FUNCTIONS
+        present = {rel: {k for k, *_ in function_keys(tree)} for rel, tree in self.modules.items()}
+        known = set()
+        unknown = False
+        for rel, keys in present.items():
+            for k in keys:
+                if k in KNOWN_FUNCTIONS.get(rel, ()):
+                    known.add((rel, k))
+                    continue
+                homes = [m for m, ks in KNOWN_FUNCTIONS.items() if k in ks]
+                if homes and not any(k in present.get(m, ()) for m in homes):
+                    known.add((rel, k))  # a reviewed function that moved to another module keeps its role
+                else:
+                    unknown = True
+        if not unknown:
+            return []
+        log = inline_unknown_helpers(self.modules, known)
+        if log:
+            for tree in self.modules.values():
+                canonicalise(tree)
+        return log
 
     # ------------------------------------------------------------------ indexing
     def _index_module(self, mod: str, tree: ast.Module) -> None:
